@@ -3,7 +3,7 @@ processes, evidence writer, known-findings matcher, replay files.
 
 Exit codes of a check: 0 held (known findings printed), 1 violation, 2 machinery error.
 """
-import hashlib, json, os, shutil, subprocess, sys, time, threading
+import hashlib, json, os, re, shutil, subprocess, sys, time, threading
 from concurrent.futures import ThreadPoolExecutor
 
 ROOT = os.path.dirname(os.path.dirname(os.path.abspath(__file__)))
@@ -251,7 +251,9 @@ class Check:
 
     def violation(self, case, observed, what, replay=None, expected=None):
         """case: JSON-able description of the failing case (stable); observed: JSON-able observation."""
-        ck, ok = sha12(case), sha12(observed)
+        # panic locations are normalised in the identity (line numbers move with unrelated edits)
+        obs_s = observed if isinstance(observed, str) else json.dumps(observed, sort_keys=True)
+        ck, ok = sha12(case), sha12(re.sub(r"(\.rs):\d+", r"\1", obs_s))
         known = self.findings.lookup(ck, ok)
         if known is not None:
             if (ck, ok) not in self._seen_known:
